@@ -1,4 +1,5 @@
 import CentrifugeVerif.Proofs.PresenceHub
+import CentrifugeVerif.Proofs.PresenceProto
 /-!
 # C06 — presence reflects live subscriptions; presence statistics count exactly the distinct
 clients and users
@@ -50,3 +51,103 @@ example : getStats "ch" (runOps [Op.add "ch" "c1" ⟨"c1", "u1"⟩, .remove "ch"
     get "ch" (runOps [Op.add "ch" "c1" ⟨"c1", "u1"⟩, .remove "ch" "c1"]) = none := by decide
 
 end CentrifugeVerif.PresenceHub
+
+/-!
+## Part (b), the protocol (`Model/PresenceProto.lean`)
+
+Threads: subscribe attempt (with both failure points), `Client.Unsubscribe`, `close`, presence tick
+(with `compensateRacedPresence`), any number of each over time, all interleavings.
+
+Full statements (DESIGN): in every reachable settled state, subscribed ⇒ present
+(`presence_while_subscribed`) and not subscribed ⇒ not present (`presence_after_settle`).
+Both are FALSE of the code as it is when a re-subscribe overlaps an unsubscribe or a tick that is
+still in flight (three decided counter-witnesses below, each replayed on the real code by the check:
+C06-1, C06-2, C06-3).  Proved: both statements for ALL interleavings under the assumption
+`quietResub` (a subscribe attempt for the channel starts only while no unsubscribe call and no
+presence tick of this connection is in flight) — hence the `_partial` names — plus the self-healing
+theorem `presence_restored_by_tick` that needs no assumption.
+-/
+namespace CentrifugeVerif.PresenceProto
+
+/-- `presence_while_subscribed` (partial: quiet re-subscribe).  Holds in every reachable state, not
+only in settled ones. -/
+theorem presence_while_subscribed_partial (cfg : Cfg) (hq : cfg.quietResub = true) (s : State)
+    (hr : Reachable cfg s) (g : Nat) (hc : s.chan = some (g, true)) : s.present = true :=
+  (inv_reachable hq hr).p1 g hc
+
+/-- `presence_after_settle` (partial: quiet re-subscribe): once nothing is in flight and the channel
+is not subscribed, the presence entry is gone. -/
+theorem presence_after_settle_partial (cfg : Cfg) (hq : cfg.quietResub = true) (s : State)
+    (hr : Reachable cfg s) (hs : Settled s = true) (hc : ∀ g, s.chan ≠ some (g, true)) :
+    s.present = false := by
+  have hi := inv_reachable hq hr
+  cases hp : s.present with
+  | false => rfl
+  | true =>
+    exfalso
+    simp only [Settled, Bool.and_eq_true, Bool.or_eq_true, Option.isNone_iff_eq_none, beq_iff_eq] at hs
+    obtain ⟨⟨⟨hS, hU⟩, hT⟩, hC⟩ := hs
+    rcases hi.p2 hp with ⟨g, hg⟩ | hpend
+    · exact hc g hg
+    · rcases hC with hC | hC <;> simp [Pending, hS, hU, hT, hC] at hpend
+
+/-- a settled state never holds a dangling reservation (so "not subscribed" = no entry at all) -/
+theorem settled_no_reservation (cfg : Cfg) (hq : cfg.quietResub = true) (s : State)
+    (hr : Reachable cfg s) (hs : Settled s = true) (g : Nat) : s.chan ≠ some (g, false) := by
+  intro hc
+  obtain ⟨t, ht, _⟩ := (inv_reachable hq hr).res g hc
+  simp only [Settled, Bool.and_eq_true, Option.isNone_iff_eq_none] at hs
+  simp [hs.1.1.1] at ht
+
+/-- Self-healing, no assumption on the history: from ANY state (reachable or not) in which the
+connection is open, the channel subscribed, no tick running and `presenceMu` free, one complete
+presence tick run on its own ends with the connection present. -/
+theorem presence_restored_by_tick (cfg : Cfg) (s : State) (g : Nat)
+    (hc : s.chan = some (g, true)) (hcl : s.closed = false) (hclg : s.closing = false)
+    (hT : s.T = none) (hmu : s.presenceMu = none) :
+    ∃ s', run cfg s [.tStart, .tCheck, .tAdd, .tCompensate] = some s' ∧
+      s'.present = true ∧ s'.chan = some (g, true) ∧ s'.T = none := by
+  refine ⟨{ s with present := true, presenceMu := none, T := none }, ?_, rfl, hc, rfl⟩
+  simp [run, next, hc, hcl, hclg, hT, hmu]
+
+/-! ### non-vacuity -/
+
+def quiet : Cfg := { quietResub := true }
+def free : Cfg := { quietResub := false }
+
+/-- subscribe, tick racing an unsubscribe (compensated), settle: not present. -/
+example :
+    ∃ s, run quiet State.init
+      [.sSpawn, .sCheck, .sAdd, .sCommit, .tStart, .tCheck, .uSpawn, .uRemove, .uPresence, .tAdd,
+       .tCompensate, .tRemove] = some s ∧ Settled s = true ∧ s.chan = none ∧ s.present = false := by decide
+
+/-- subscribe and stay: settled, subscribed, present. -/
+example :
+    ∃ s, run quiet State.init [.sSpawn, .sCheck, .sAdd, .sCommit, .tStart, .tCheck, .tAdd, .tCompensate]
+      = some s ∧ Settled s = true ∧ s.chan = some (1, true) ∧ s.present = true := by decide
+
+/-! ### counter-witnesses without the assumption (the code as it is) -/
+
+/-- C06-1: unsubscribe's `removePresence` lands after the re-subscribe's `addPresence`. -/
+example :
+    ∃ s, run free State.init
+      [.sSpawn, .sCheck, .sAdd, .sCommit, .uSpawn, .uRemove,
+       .sSpawn, .sCheck, .sAdd, .sCommit, .uPresence] = some s ∧
+      Settled s = true ∧ s.chan = some (2, true) ∧ s.present = false := by decide
+
+/-- C06-2: the tick's add lands after the unsubscribe's remove; the compensation is skipped because a
+new reservation exists; that attempt fails: entry left behind with nothing subscribed. -/
+example :
+    ∃ s, run free State.init
+      [.sSpawn, .sCheck, .sAdd, .sCommit, .tStart, .tCheck, .uSpawn, .uRemove, .uPresence,
+       .sSpawn, .tAdd, .tCompensate, .sFail] = some s ∧
+      Settled s = true ∧ s.chan = none ∧ s.present = true := by decide
+
+/-- C06-3: the tick's compensating remove lands after a fast re-subscribe's add. -/
+example :
+    ∃ s, run free State.init
+      [.sSpawn, .sCheck, .sAdd, .sCommit, .tStart, .tCheck, .uSpawn, .uRemove, .uPresence, .tAdd,
+       .tCompensate, .sSpawn, .sCheck, .sAdd, .sCommit, .tRemove] = some s ∧
+      Settled s = true ∧ s.chan = some (2, true) ∧ s.present = false := by decide
+
+end CentrifugeVerif.PresenceProto
